@@ -1,7 +1,7 @@
 (* Props/C10.v — C10: re-exporting a decoded IPFIX message reproduces the bytes it came from.
    Theorems only; same shape as C09 (the value-level predicate exact_dtype is shared). *)
 From NF Require Import Base Nom Types Layout Value Ipfix Parser Export.
-From NF Require Import ReexportFacts ExportFacts VarFacts RunFacts TotalFacts.
+From NF Require Import ReexportFacts ExportFacts VarFacts RunFacts TotalFacts PacketFacts.
 Open Scope list_scope.
 
 Theorem C10_value : forall puf dt len i v r,
@@ -41,6 +41,15 @@ Theorem C10_record_consumes : forall puf fs c i ents taken vt r,
   exists pre, i = pre ++ r /\ N.of_nat (length pre) = taken /\ ientries_ok ents.
 Proof. intros puf fs. exact (parse_irecord_ok puf fs). Qed.
 Print Assumptions C10_record_consumes.
+
+(* a whole data set: under a template without variable-length fields, when every decoded value is
+   of a lossless kind, values followed by the stored padding are exactly the set body *)
+Theorem C10_data_set_roundtrip : forall puf fs body ents pad r,
+  parse_idata puf fs body = Ok (ents, pad) r ->
+  existsb is_varlen fs = false -> forallb ient_lossless ents = true ->
+  export_ix_body (IxData ents pad) = XOk body.
+Proof. exact parse_idata_reexport. Qed.
+Print Assumptions C10_data_set_roundtrip.
 
 Theorem C10_no_panic : forall puf allow s x r,
   parse_bytes puf allow s x = Some r -> Forall (fun es => export_elem (fst es) <> Some XPanic) r.
